@@ -2,6 +2,7 @@
   C07 — source text denotes one tree: precedence, associativity, layout independence.
 -/
 import Nlmodel.Model.Printer
+import Nlmodel.Proofs.Lemmas.Pratt
 namespace Nl
 namespace C07
 
@@ -25,6 +26,32 @@ theorem C07_documented_order :
     ∧ docLevel .mul = docLevel .div ∧ docLevel .div = docLevel .mod ∧ docLevel .add = docLevel .sub
     ∧ docLevel .lt = docLevel .lte ∧ docLevel .lt = docLevel .gt ∧ docLevel .lt = docLevel .gte
     ∧ docLevel .eq = docLevel .neq ∧ docLevel .and = docLevel .or := by decide
+
+/-- ROUND TRIP (expression level): every tree over the 13 binary operators and atoms (identifiers,
+    integer literals, booleans) — any shape, any depth, any operator combination — printed with
+    minimal parentheses according to the DOCUMENTED table parses back to exactly that tree, in any
+    context that does not continue the expression, with any fuel from a bound linear in the number of
+    tokens on.  Hence: operators group as documented, equal levels associate to the left (a right
+    child of equal level is printed in parentheses, a left child is not), and the parentheses the
+    printer omits are exactly the redundant ones. -/
+theorem C07_print_parse_expr (e : Expr) (h : RT.BinE e) (rest : List Token) (hstop : RT.Stops 0 rest) (F : Nat)
+    (hF : 2 * (printE e).length + 1 ≤ F) :
+    parseExpr F 0 (printE e ++ rest) = .ok (e, rest) :=
+  RT.print_parse_expr e h rest hstop F (by have := (RT.bound e h).1; omega)
+
+/-- ROUND TRIP (program level, with the fuel `parse` itself supplies): `parse (print e;) = e;` -/
+theorem C07_print_parse_program (e : Expr) (h : RT.BinE e) :
+    parseTokens (printProgram (.cons (.expr e) .nil)) = .ok (.cons (.expr e) .nil) :=
+  RT.print_parse_program e h
+
+/-- non-vacuity: `a - (b - c) * d` and `(a - b) - c` are in the fragment; the first needs its
+    parentheses, the second does not get any -/
+example : printE (.infix (.ident ['a']) .sub (.infix (.infix (.ident ['b']) .sub (.ident ['c'])) .mul (.ident ['d'])))
+    = [.ident ['a'], .minus, .lparen, .ident ['b'], .minus, .ident ['c'], .rparen, .star, .ident ['d']] := by decide
+example : printE (.infix (.infix (.ident ['a']) .sub (.ident ['b'])) .sub (.ident ['c']))
+    = [.ident ['a'], .minus, .ident ['b'], .minus, .ident ['c']] := by decide
+example : RT.BinE (.infix (.infix (.ident ['a']) .sub (.ident ['b'])) .sub (.ident ['c'])) :=
+  .bin _ _ _ (by simp [RT.isBin]) (.bin _ _ _ (by simp [RT.isBin]) (.ident _) (.ident _)) (.ident _)
 
 end C07
 end Nl
